@@ -266,6 +266,8 @@ def run_hist(key):
             pass
         ns = nt + 1
     res["states"], res["trans"] = ns, nt
+    if H.LAST["budget_stop"]:
+        res["notes"]["cases_cut_at_cpu_budget"] = res["notes"].get("cases_cut_at_cpu_budget", 0) + 1
     res["outcomes"] += obs[:40]
     res["obs"] = digest(*obs)
     res["sample"] = {"case": key, "states": ns, "transitions": nt}
